@@ -19,6 +19,10 @@ class StrictPdoDevice:
             self.store[(com, s)] = b"\0" if s == 6 else b"\0\0"
         for k in range(1, 9):
             self.store[(mapi, k)] = bytes(4)
+        if prior in ("valid1", "valid8"):
+            # a device that was configured before: its optional timers are not zero
+            for s_ in subs:
+                self.store[(com, s_)] = b"\x05" if s_ == 6 else b"\x34\x12"
         if prior == "valid1":
             self.store[(com, 1)] = struct.pack("<L", 0x181)
             self.store[(mapi, 0)] = b"\x01"
